@@ -28,15 +28,21 @@ EXTRA_TARGETS = ["model/ScreenTie.vo"]
 MODEL_REASON = {2: "layout extracted with urwid's shard functions is not well-formed / does not match the shards",
                 3: "walk ran out of fuel", 4: "delete commands differ from the model's",
                 5: "_ti_image_cviews differs from the model's", 6: "canvas disguise state differs from the model's",
-                7: "widget disguise states differ from the model's", 8: "z-index allocator state differs from the model's"}
+                7: "widget disguise states differ from the model's", 8: "z-index allocator differs from the model's single allocator (counter / free set / live widgets' indexes / a class of "
+                   "the widget tree sees its own state)"}
 SPEC_REASON = {1: "an exception escaped a legitimate redraw", 2: "redraw output is not one BEGIN/END synchronized update",
                3: "_ti_image_cviews is not the set of image views of the canvas (positions from the layout)",
                4: "GHOST: the terminal shows an image placement that the canvas just drawn does not have",
                5: "an image line of the canvas just drawn is NOT on the terminal (deleted and not written again)",
-               6: "live z-indexes not distinct / zero / out of range, or a live widget's index was freed",
+               6: "the z-indexes of the live kitty widgets (of all widget classes) are not pairwise distinct / non-zero / in range, "
+                  "or a live widget's index was freed",
                7: "image placements left on the terminal after start / stop / clear"}
 
 # ------------------------------------------------------------------ generator
+
+# widget classes: 0 = UrwidImage, 1 = a subclass, 2 = a subclass of that subclass, 3 = another subclass
+CLASSES = [0, 0, 1, 1, 2, 3]
+CLASS_NAME = {0: "", 1: "/Sub", 2: "/SubSub", 3: "/Other"}
 
 KINDS = {"kitty": ["kitty", "kitty", "block"], "konsole": ["kitty", "iterm2", "iterm2", "block"],
          "other": ["kitty", "iterm2", "block"]}
@@ -183,7 +189,8 @@ def gen_case(rng: random.Random, idx: int, quick: bool):
     names = [chr(ord("a") + i) for i in range(nslots)]
     slots = {}
     for nme in names:
-        slots[nme] = {"kind": rng.choice(KINDS[term]), "img": rng.randrange(6), "upscale": rng.random() < 0.8}
+        slots[nme] = {"kind": rng.choice(KINDS[term]), "img": rng.randrange(6), "upscale": rng.random() < 0.8,
+                      "cls": rng.choice(CLASSES)}
     if all(s["kind"] == "block" for s in slots.values()):
         slots[names[0]]["kind"] = "kitty"
     ksup = True
@@ -217,7 +224,7 @@ def gen_case(rng: random.Random, idx: int, quick: bool):
         elif c < 0.90:
             nme = rng.choice(names)
             steps.append({"op": "new", "slot": nme,
-                          "spec": {"kind": rng.choice(KINDS[term]) if ksup else "block", "img": rng.randrange(6), "upscale": True}})
+                          "spec": {"kind": rng.choice(KINDS[term]) if ksup else "block", "img": rng.randrange(6), "upscale": True, "cls": rng.choice(CLASSES)}})
             steps.append({"op": "draw", "layout": layout})
         elif c < 0.95:
             # drop a widget that the next layout no longer uses
@@ -230,7 +237,7 @@ def gen_case(rng: random.Random, idx: int, quick: bool):
                 nme = rng.choice(unused)
                 steps.append({"op": "del", "slot": nme})
                 steps.append({"op": "new", "slot": nme, "spec": {"kind": rng.choice(KINDS[term]) if ksup else "block",
-                                                                 "img": rng.randrange(6), "upscale": True}})
+                                                                 "img": rng.randrange(6), "upscale": True, "cls": rng.choice(CLASSES)}})
         else:
             steps.append({"op": "draw_bad", "layout": layout})
             steps.append({"op": "clear"})
@@ -283,6 +290,28 @@ def corpus():
         cases.append(dict(base, slots={"a": K, "b": B}, steps=[
             S, d(ov(3, bottom=["cols", [[["weight", 1], ["img", "a"]], [["given", 6], ["img", "b"]]]])),
             {"op": "draw_bad", "layout": ov(4)}, {"op": "clear"}, d(ov(4)), E, S, d(ov(4)), E]))
+    # widgets of UrwidImage and of subclasses of it alive together (one allocator for the whole
+    # class tree): stacked, the upper one replaced by text; creation / collection interleaved
+    def kc(c, img=2):
+        return {"kind": "kitty", "img": img, "upscale": True, "cls": c}
+
+    def stack(*names):
+        return ["pile", [["pack", ["img", n]] if n != "-" else ["pack", ["text", "gone"]] for n in names]
+                + [[["weight", 1], ["fill", "."]]]]
+    for term in ("kitty", "konsole", "other"):
+        base = {"term": term, "ksup": True, "size": [20, 12], "z_start": None}
+        cases.append(dict(base, slots={"a": kc(0), "b": kc(1), "c": kc(0, 3)},
+                          steps=[S, d(stack("b", "c")), d(stack("-", "c")), d(stack("a", "c")), E]))
+        cases.append(dict(base, slots={"a": kc(1), "b": kc(0), "c": kc(2), "d": kc(3, 3)},
+                          steps=[S, d(stack("a", "b")), d(stack("c", "d")), d(stack("-", "d")),
+                                 {"op": "del", "slot": "a"}, {"op": "del", "slot": "b"}, d(stack("c", "d")),
+                                 {"op": "new", "slot": "a", "spec": kc(2)}, {"op": "new", "slot": "b", "spec": kc(0)},
+                                 {"op": "new", "slot": "e", "spec": kc(3)}, d(stack("a", "b")), d(stack("e", "-")), E]))
+    cases.append({"term": "kitty", "ksup": True, "size": [16, 6], "z_start": 2**31 - 2, "slots": {"a": kc(1, 0)},
+                  "steps": [S, {"op": "new", "slot": "b", "spec": kc(0, 0)}, {"op": "new", "slot": "c", "spec": kc(2, 0)},
+                            {"op": "new", "slot": "d", "spec": kc(3, 0)}, {"op": "new", "slot": "e", "spec": kc(1, 0)},
+                            d(["cols", [[["weight", 1], ["img", "a"]], [["weight", 1], ["img", "b"]]]]),
+                            {"op": "del", "slot": "c"}, d(["fill", "."]), {"op": "new", "slot": "f", "spec": kc(0, 0)}, E]})
     kon = {"term": "konsole", "ksup": True, "size": [24, 10], "z_start": None}
     both = ["cols", [[["weight", 1], ["img", "a"]], [["weight", 1], ["img", "b"]]]]
     cases.append(dict(kon, slots={"a": K, "b": I}, steps=[S, d(both), d(ov(3, bottom=both)), d(ov(4, 1, bottom=both)),
@@ -352,7 +381,9 @@ class Encoder:
     def obs_term(self, r):
         pair = lambda e: f"({e[0]}%nat, {core.z(e[1])})"  # noqa: E731
         return ("(mk_obs " + core.coq_list(r["freed"], pair) + " " + core.coq_list(r["live_z"], pair) + " "
-                + core.coq_list(r["free_set"], core.z) + " " + core.z(r["next_z"]) + f" {r['cdis']} "
+                + core.coq_list(r["free_set"], core.z) + " " + core.z(r["next_z"]) + " "
+                + core.coq_list(r.get("class_state", []), lambda c: f"({core.z(c[0])}, {core.coq_list(c[1], core.z)})")
+                + f" {r['cdis']} "
                 + core.coq_list(r["wdis"], lambda e: f"({e[0]}, {e[1]})") + " "
                 + core.coq_list(r["cviews"], self.view_term) + ")")
 
@@ -382,8 +413,8 @@ class Encoder:
         if op == "new":
             a = r["alloc"]
             if a[0] == "raised":
-                return "(XNew true None)"
-            return f"(XNew {b(a[2] == 'kitty')} " + (f"(Some {core.z(a[3])})" if a[3] is not None else "None") + ")"
+                return "(XNew 0 true None)"
+            return f"(XNew {a[1]} {b(a[2] == 'kitty')} " + (f"(Some {core.z(a[3])})" if a[3] is not None else "None") + ")"
         return "XDel"
 
     def term(self):
@@ -419,13 +450,13 @@ def describe(case, upto=None):
     s = f"term={case['term']} size={case['size'][0]}x{case['size'][1]}" + ("" if case.get("ksup", True) else " kitty-unsupported")
     if case.get("z_start"):
         s += f" z_start={case['z_start']}"
-    s += " widgets{" + ",".join(f"{n}:{sp['kind']}#{sp['img']}" for n, sp in case["slots"].items()) + "} :: "
+    s += " widgets{" + ",".join(f"{n}:{sp['kind']}#{sp['img']}{CLASS_NAME.get(sp.get('cls', 0), '')}" for n, sp in case["slots"].items()) + "} :: "
     parts = []
     for st in case["steps"][: (upto + 1 if upto is not None else None)]:
         if st["op"] in ("draw", "draw_bad"):
             parts.append(f"{st['op']} {describe_layout(st['layout'])}")
         elif st["op"] == "new":
-            parts.append(f"new {st['slot']}:{st['spec']['kind']}#{st['spec']['img']}")
+            parts.append(f"new {st['slot']}:{st['spec']['kind']}#{st['spec']['img']}{CLASS_NAME.get(st['spec'].get('cls', 0), '')}")
         elif st["op"] == "del":
             parts.append(f"del {st['slot']}")
         else:
@@ -477,6 +508,15 @@ def shrink_candidates(case, fail_step):
     steps = case["steps"]
     cut = fail_step - nsetup(case)
     out = []
+    if cut < 0:
+        # failed while the session's widgets were being constructed: no step is needed, nor
+        # are the widgets constructed after the failing one; then try without each earlier one
+        names = list(case["slots"])
+        keep = names[: fail_step + 1]
+        out.append(dict(case, steps=[], slots={k: case["slots"][k] for k in keep}))
+        for n in keep[:-1]:
+            out.append(dict(case, steps=[], slots={k: case["slots"][k] for k in keep if k != n}))
+        return out
     if 0 <= cut < len(steps) - 1:
         out.append(dict(case, steps=steps[: cut + 1]))
     base = steps[: cut + 1] if 0 <= cut < len(steps) else steps
@@ -523,7 +563,7 @@ def sub_layouts(L):
 
 
 def size_of(case):
-    return (len(case["steps"]), len(json.dumps(case["steps"])), len(case["slots"]))
+    return (len(case["steps"]), len(json.dumps(case["steps"])), len(case["slots"]), len(json.dumps(case["slots"])))
 
 
 def shrink(case, verdict, errors, rounds=4, t_end=None):
@@ -549,7 +589,7 @@ def shrink(case, verdict, errors, rounds=4, t_end=None):
 
 def run(ctx):
     errors, mismatches, failures, raw_failing = [], [], [], []
-    hist = {"terminal": {}, "steps_per_session": {}, "op": {}, "layout_nodes": {}, "widget_kinds": {},
+    hist = {"terminal": {}, "widget_classes": {}, "sessions_mixing_classes": 0, "steps_per_session": {}, "op": {}, "layout_nodes": {}, "widget_kinds": {},
             "verdict": {}, "views_on_screen": {}, "deletes": {"all": 0, "by_z": 0, "cursor": 0},
             "redraws_with_vanished_views": 0, "non_composite_canvases": 0, "image_lines_in_canvases": 0,
             "image_lines_written": 0, "z_freed": 0, "z_reused": 0, "z_exhausted": 0}
@@ -579,8 +619,13 @@ def run(ctx):
         hist["terminal"][c["term"]] = hist["terminal"].get(c["term"], 0) + 1
         ns = len(c["steps"])
         hist["steps_per_session"][ns // 4 * 4] = hist["steps_per_session"].get(ns // 4 * 4, 0) + 1
-        for sp in c["slots"].values():
+        specs = list(c["slots"].values()) + [st["spec"] for st in c["steps"] if st["op"] == "new"]
+        for sp in specs:
             hist["widget_kinds"][sp["kind"]] = hist["widget_kinds"].get(sp["kind"], 0) + 1
+            nm = CLASS_NAME.get(sp.get("cls", 0), "") or "/UrwidImage"
+            hist["widget_classes"][nm] = hist["widget_classes"].get(nm, 0) + 1
+        if len({sp.get("cls", 0) for sp in specs if sp["kind"] == "kitty"}) > 1:
+            hist["sessions_mixing_classes"] += 1
         for st in c["steps"]:
             hist["op"][st["op"]] = hist["op"].get(st["op"], 0) + 1
             if "layout" in st:
@@ -639,9 +684,11 @@ def run(ctx):
         else:
             small, sv = shrink(c, v, errors, rounds=4 if ctx.quick else 8, t_end=t_end)
         step = sv[2] - nsetup(small)
+        where = (f"at step {step} of: {describe(small, step)}" if step >= 0 else
+                 f"after constructing widget `{list(small['slots'])[sv[2]]}` of: {describe(small, -1)}")
         failures.append({
             "signature": core.sig({"case": small, "reason": sv[1]}),
-            "what": f"{SPEC_REASON.get(sv[1], sv[1])} at step {step} of: {describe(small, step)}",
+            "what": f"{SPEC_REASON.get(sv[1], sv[1])} {where}",
             "replay": {"case": small, "reason": SPEC_REASON.get(sv[1], sv[1]), "step": step, "code": sv[0],
                        "original_case": c if small is not c else None},
         })
@@ -661,8 +708,10 @@ def run(ctx):
         "distinct_nontrivial": len(distinct),
         "rule": "committed corpus of boundary sessions (overlay growing by a row over one widget, top-most widget replaced by "
                 "SolidFill / being the image widget itself, one widget three times in a scrolled list box / side by side, "
-                "z-index reuse after collection, inner draw raising, stop/start, kitty+iterm2 on Konsole, z-index exhaustion, "
-                "kitty unsupported) x terminal identity, then generated sessions: 1-4 widgets of kinds kitty / iterm2 / block "
+                "z-index reuse after collection, widgets of UrwidImage and of its subclasses alive together with interleaved creation / "
+                "collection, inner draw raising, stop/start, kitty+iterm2 on Konsole, z-index exhaustion, "
+                "kitty unsupported) x terminal identity, then generated sessions: 1-4 widgets of kinds kitty / iterm2 / block, each an instance of UrwidImage, of a subclass, of a sub-subclass or of a second "
+                "subclass (mixed in one session) "
                 "(6 images, two of them uniform), 16x6..30x12 screens, a random box layout of depth <= 3 (Pile, Columns, "
                 "Overlay, ListBox, LineBox, Filler, Padding, BoxAdapter, image widgets in box and flow position, the same "
                 "widget possibly several times) followed by 3-10 operations: a mutation of the layout (overlay moved / "
